@@ -60,9 +60,7 @@ def run(ctx):
             ret_slot = T.addr(t["args"][0])
     def spawn_err_edges(bb):
         """edges taken when the spawn at bb failed: the Break edge of `?`, or the Err arm of an explicit match on its result"""
-        e = try_err_edges(pp, T, lambda c: c[3] == bb)
-        e += variant_edges(pp, T, lambda t_: t_[0] == "call" and t_[3] == bb, 1, [0, 1], "std::result::Result<")
-        return e
+        return sorted(set(try_err_edges(pp, T, lambda c: c[3] == bb)))
 
     for bb, t in spawns:
         err_e = spawn_err_edges(bb)
